@@ -757,11 +757,18 @@ func equivalentCheckConfigInV2(
 	// Otherwise, find what's missing and what's extra.
 	expectedIDsMap := slicesext.ToStructMap(expectedIDs)
 	simplyTranslatedIDsMap := slicesext.ToStructMap(simplyTranslatedIDs)
+	// Rules that do not exist in v2 cannot be carried over.
+	allV2Rules, err := client.AllRules(ctx, ruleType, bufconfig.FileVersionV2)
+	if err != nil {
+		return nil, err
+	}
+	allV2IDsMap := slicesext.ToStructMap(slicesext.Map(allV2Rules, func(rule bufcheck.Rule) string { return rule.ID() }))
 	missingIDs := slicesext.Filter(
 		expectedIDs,
 		func(expectedID string) bool {
 			_, ok := simplyTranslatedIDsMap[expectedID]
-			return !ok
+			_, existsInV2 := allV2IDsMap[expectedID]
+			return !ok && existsInV2
 		},
 	)
 	extraIDs := slicesext.Filter(
